@@ -33,6 +33,14 @@ pub struct DesKey {
     buf: Buffer,
 }
 
+#[cfg(gufo_snmp_verif)]
+impl DesKey {
+    /// Verification hook: start the salt counter at a chosen value
+    pub(crate) fn set_salt_value(&mut self, value: u64) {
+        self.salt_value = value as u32;
+    }
+}
+
 impl SnmpPriv for DesKey {
     fn as_localized(&mut self, key: &[u8]) -> SnmpResult<()> {
         if key.len() < KEY_LENGTH {
